@@ -142,13 +142,13 @@ func (w *dagWorld) arrive(a arrival) string {
 	case "lock":
 		act.call(func() { d.Lock(xs[0]) })
 	case "unlock":
-		delete(w.held[a.t], xs[0])
+		w.release(a.t, xs[0], 'w')
 		act.call(func() { d.Unlock(xs[0]) })
 	case "rlock":
 		act.call(func() { d.RLock(xs...) })
 	case "runlock":
 		for _, x := range xs {
-			delete(w.held[a.t], x)
+			w.release(a.t, x, 'r')
 		}
 		act.call(func() { d.RUnlock(xs...) })
 	}
@@ -218,6 +218,46 @@ func (w *dagWorld) arrive(a arrival) string {
 	}
 
 	return w.obs()
+}
+
+// release: goroutine t gives up a lock on x in mode m — its own, or (hand-off: "one goroutine may RLock (Lock) an
+// entity and then arrange for another goroutine to RUnlock (Unlock) it") the one of another goroutine.
+func (w *dagWorld) release(t, x int, m byte) {
+	if w.held[t][x] == m {
+		delete(w.held[t], x)
+
+		return
+	}
+	for u := range w.held {
+		if w.held[u][x] == m {
+			delete(w.held[u], x)
+
+			return
+		}
+	}
+}
+
+// handoffs lists the unlocks goroutine t (idle) can issue for what the other goroutines hold.
+func (w *dagWorld) handoffs(t int) []arrival {
+	if !w.idle(t) {
+		return nil
+	}
+	var out []arrival
+	for u := range w.held {
+		if u == t {
+			continue
+		}
+		for x, m := range w.held[u] {
+			if m == 'w' {
+				out = append(out, arrival{t: t, op: "unlock", arg: strconv.Itoa(x)})
+			} else if w.held[t][x] == 0 {
+				out = append(out, arrival{t: t, op: "runlock", arg: strconv.Itoa(x)})
+			}
+		}
+	}
+	sort.Slice(out, func(i, j int) bool { return out[i].op+out[i].arg < out[j].op+out[j].arg })
+
+	return out
 }
 
 func (w *dagWorld) idle(t int) bool { return w.pending[t] == nil && w.actors[t].state.Load() == stIdle }
@@ -407,6 +447,17 @@ func randomDag(r *hx.Run, rng *hx.Rng, sub uint64) {
 			break
 		}
 		a := hx.Pick(rng, cands)
+		if rng.Chance(1, 6) {
+			// hand-off: a goroutine releases what another one holds (the lock is not associated with a goroutine)
+			var hs []arrival
+			for t := 0; t < n; t++ {
+				hs = append(hs, w.handoffs(t)...)
+			}
+			if len(hs) > 0 {
+				a = hx.Pick(rng, hs)
+				r.Count("dag-op:handoff")
+			}
+		}
 		emit(a, w.arrive(a))
 	}
 	w.closeOut(emit)
